@@ -22,6 +22,14 @@ CLAIMED["C07"] = dict(
     technique="Coq proof (induction on chunk lists and on chain structure) + extracted-model correspondence with fault injection",
 )
 
+CLAIMED["C16"] = dict(
+    category="proof",
+    text="Theorems in coq/Props/Properties_C16.v about a Gallina model of add_entity() (lib/openssl/misc.c) and encode_protected() (lib/misc.c): one step (C16_step) and any history (C16_history, induction over the list of additions, unbounded) keep the object in exactly one RFC form -- flattened iff one entry, general iff more, an empty list counts as absent --, entries appear in the order added, migration moves the existing entry unchanged, other members are untouched, an encoded protected header is never altered. Tie: extracted model vs the real add_entity/encode_protected on all histories of length <= 4 over 5 templates from 6 start shapes (both flavours), malformed inputs of every JSON type, long random histories; independent Python oracle for the search.",
+    design_ref="DESIGN.md section 3 C16",
+    note="Coq kernel; no axioms; JSON modelled as immutable trees (jansson aliasing between appended object and caller's object not represented); premises: no duplicate member names, each addition carries an entry member.",
+    technique="Coq proof (case analysis on forms, induction over histories) + extracted-model correspondence",
+)
+
 NOT_YET = {}
 
 def main():
